@@ -140,7 +140,8 @@ class Interpret {
     bool            f_exit;
     mutable bool    _okStatus{true};
 
-    vec<PTRef>      assertions;
+    vec<PTRef>      assertions;       // position = partition index given by the solver; PTRef_Undef once popped
+    vec<std::size_t> assertionLevels; // assertion level at which assertions[i] was asserted
     vec<SymRef>     user_declarations;
     DefinedFunctions defined_functions;
 
